@@ -104,6 +104,31 @@ def assemble(name, template="FiberCore.tmpl"):
     return path
 
 
+def assemble_thread(name):
+    """standalone (thread-regime) module: spec/thread/<name>.tla.in"""
+    os.makedirs(GEN, exist_ok=True)
+    src = open(os.path.join(SPEC, "thread", name + ".tla.in")).read()
+    for inc in re.findall(r"@@INC:(\w+)@@", src):
+        src = src.replace(f"@@INC:{inc}@@", open(os.path.join(SPEC, "thread", inc + ".inc")).read())
+    if "@@QUEUEMON@@" in src:
+        src = src.replace("@@QUEUEMON@@", open(os.path.join(SPEC, "thread", "QueueMon.inc")).read())
+    src = src.replace("@@LABELPROC@@", label_proc_map(src))
+    with open(os.path.join(GEN, name + ".tla"), "w") as f:
+        f.write(src)
+    r = subprocess.run(["pcal", "-nocfg", name + ".tla"], cwd=GEN, capture_output=True, text=True)
+    if r.returncode != 0 or "error" in r.stdout.lower():
+        print(r.stdout[-3000:], r.stderr[-2000:])
+        raise SystemExit(f"pcal failed for {name}")
+    try:
+        os.remove(os.path.join(GEN, name + ".old"))
+    except OSError:
+        pass
+    ttmpl = open(os.path.join(SPEC, "core", "Trace.tmpl")).read()
+    tsrc = fill(ttmpl, dict(DEFAULTS), name)
+    with open(os.path.join(GEN, "Trace" + name + ".tla"), "w") as f:
+        f.write(tsrc)
+
+
 def tla_val(v):
     if isinstance(v, bool):
         return "TRUE" if v else "FALSE"
